@@ -5,7 +5,8 @@ EXTENDS Interrealm
 
 \* S = the MsgRun script (/e/), A = attacker realm, R = victim realm, L = trusted /p/ library,
 \* Q = /p/ package written by the attacker
-MCPkgs == {"S", "A", "R", "L", "Q"}
+\* T = a library with mutating methods on named types that the victim never applied to its data (stdlib sort)
+MCPkgs == {"S", "A", "R", "L", "Q", "T"}
 MCKindOf == [p \in MCPkgs |-> CASE p = "S" -> "e" [] p \in {"A", "R"} -> "r" [] OTHER -> "p"]
 
 PtrT == {"getT", "gp", "addrG", "ifaceT", "ganyT", "ptrs0", "selfT", "rangeT"}
@@ -16,24 +17,31 @@ PtrInt == {"fieldPtr", "elemPtr", "addrField", "addrElem", "addrGI", "addrArrEl"
 PtrArr == {"arrPtr", "addrGArr"}
 PtrBox == {"getBox", "gb", "fieldB"}
 IntV == {"gi"}
-CtlP == {"setter", "bumper", "bump", "zero"}
+CtlP == {"setter", "bumper", "bump", "zero", "swapown"}
+StrP == {"getStrs", "gstr"}
+FlP == {"getFloats", "gfl"}
+NamedP == {"getScores", "gscores"}
 CtorP == {"ctor"}
 PcurP == {"pcur"}
 CbP == {"cbT", "cbSlice", "cbBox"}
-Plain == PtrT \cup ValT \cup SliceP \cup MapP \cup PtrInt \cup PtrArr \cup PtrBox \cup IntV \cup CtorP
+Plain == PtrT \cup ValT \cup SliceP \cup MapP \cup PtrInt \cup PtrArr \cup PtrBox \cup IntV \cup CtorP \cup StrP \cup FlP \cup NamedP
 InlOK == {"getT", "gp", "ifaceT", "ganyT", "ptrs0", "selfT", "gval", "getSlice", "gs", "fieldSl", "methSl", "ifaceSl", "valSl",
-          "getMap", "gm", "fieldM", "ifaceM", "valM", "fieldPtr", "elemPtr", "arrPtr", "getBox", "gb", "fieldB", "gi"}
+          "getMap", "gm", "fieldM", "ifaceM", "valM", "fieldPtr", "elemPtr", "arrPtr", "getBox", "gb", "fieldB", "gi",
+          "getStrs", "gstr", "getFloats", "gfl", "getScores", "gscores"}
 
 TypOf(p) == CASE p \in PtrT \cup {"cbT"} -> "ptrT" [] p \in ValT -> "valT" [] p \in SliceP \cup {"cbSlice"} -> "sliceInt"
               [] p \in MapP -> "mapSI" [] p \in PtrInt -> "ptrInt" [] p \in PtrArr -> "ptrArr"
-              [] p \in PtrBox \cup {"cbBox"} -> "ptrBox" [] p \in IntV -> "intv" [] p \in CtorP -> "ctor" [] p \in PcurP -> "pcur" [] OTHER -> "ctl"
-ViaOf(p) == CASE p = "setter" -> <<C("R", "R")>> [] p \in {"bumper", "bump"} -> <<M("R", "R")>> [] p = "zero" -> <<X("R")>> [] OTHER -> <<>>
+              [] p \in PtrBox \cup {"cbBox"} -> "ptrBox" [] p \in IntV -> "intv" [] p \in StrP -> "sliceStr" [] p \in FlP -> "sliceFl" [] p \in NamedP -> "namedInts" [] p \in CtorP -> "ctor" [] p \in PcurP -> "pcur" [] OTHER -> "ctl"
+ViaOf(p) == CASE p = "setter" -> <<C("R", "R")>> [] p \in {"bumper", "bump", "swapown"} -> <<M("R", "R")>> [] p = "zero" -> <<X("R")>> [] OTHER -> <<>>
 
-MCPaths == {[name |-> p, typ |-> TypOf(p), inl |-> (p \in InlOK), pname |-> (TypOf(p) \notin {"ptrT", "valT", "ctl", "ctor", "pcur"}), via |-> ViaOf(p)]
+MCPaths == {[name |-> p, typ |-> TypOf(p), inl |-> (p \in InlOK), pname |-> (TypOf(p) \notin {"ptrT", "valT", "ctl", "ctor", "pcur", "namedInts"}), via |-> ViaOf(p)]
             : p \in Plain \cup CtlP \cup CbP \cup PcurP}
 
-WK(nm, ty) == [name |-> nm, typ |-> ty, via |-> <<>>, needcur |-> FALSE]
-WKL(nm, ty) == [name |-> nm, typ |-> ty, via |-> <<M("L", "R")>>, needcur |-> FALSE]
+WK(nm, ty) == [name |-> nm, typ |-> ty, via |-> <<>>, needcur |-> FALSE, conv |-> None, convAt |-> 0]
+WKL(nm, ty) == [name |-> nm, typ |-> ty, via |-> <<M("L", "R")>>, needcur |-> FALSE, conv |-> None, convAt |-> 0]
+\* conversion kinds: re-type the victim-owned handle (conv = target package, "own" = a type the attacker declares next to
+\* the statement, "U" = an unnamed type), then write through it along `via`
+CV(nm, ty, cv, via, at) == [name |-> nm, typ |-> ty, via |-> via, needcur |-> FALSE, conv |-> cv, convAt |-> at]
 MCWrites ==
   {WK(x, "ptrT") : x \in {"fN", "fS", "fInN", "fPN", "fArr", "fSl", "fMins", "fMdel", "fInc", "fOp", "fWhole", "fAny", "fP", "fSwap", "fApp", "fBoxV", "fTags"}}
   \cup {WKL("tBoxSet", "ptrT")}
@@ -47,9 +55,27 @@ MCWrites ==
   \cup {WK(x, "intv") : x \in {"iSet", "iInc", "iOp"}}
   \cup {WK(x, "ctor") : x \in {"cLit", "cPtr", "cNew", "cInner", "cConv"}}
   \cup {WK(x, "pcur") : x \in {"rVar", "rPrev", "rField", "rSlice", "rMap", "rClosure", "rAny"}}
-  \cup {[name |-> "call", typ |-> "ctl", via |-> <<>>, needcur |-> FALSE]}
+  \cup {[name |-> "call", typ |-> "ctl", via |-> <<>>, needcur |-> FALSE, conv |-> None, convAt |-> 0]}
+  \cup {WK(x, "sliceStr") : x \in {"ssIdx"}} \cup {WK(x, "sliceFl") : x \in {"flIdx"}} \cup {WK(x, "namedInts") : x \in {"nsIdx"}}
+  \* (b) library named types with mutating methods
+  \cup {CV("cvSortSwap", "sliceInt", "T", <<M("T", "R")>>, 0), CV("cvSortRev", "sliceInt", "T", <<F("T"), M("T", "R")>>, 0),
+        CV("cvSortInts", "sliceInt", "T", <<F("T"), M("T", "R")>>, 1),
+        CV("cvLibSet", "sliceInt", "L", <<M("L", "R")>>, 0), CV("cvLibSwap", "sliceInt", "L", <<M("L", "R")>>, 0), CV("cvLibIdx", "sliceInt", "L", <<>>, 0),
+        CV("cvLibMapPut", "mapSI", "L", <<M("L", "R")>>, 0), CV("cvLibMapDel", "mapSI", "L", <<M("L", "R")>>, 0),
+        CV("cvLibArrSet", "ptrArr", "L", <<M("L", "R")>>, 0), CV("cvLibArrIdx", "ptrArr", "L", <<>>, 0),
+        CV("cvLibTwinSet", "ptrBox", "L", <<M("L", "R")>>, 0), CV("cvLibTwinField", "ptrBox", "L", <<>>, 0), CV("cvLibTwinVal", "ptrBox", "L", <<M("L", None)>>, 0),
+        CV("cvStrSwap", "sliceStr", "T", <<M("T", "R")>>, 0), CV("cvStrSort", "sliceStr", "T", <<F("T"), M("T", "R")>>, 1),
+        CV("cvFlSwap", "sliceFl", "T", <<M("T", "R")>>, 0), CV("cvFlSort", "sliceFl", "T", <<F("T"), M("T", "R")>>, 1),
+        CV("cvNamedSortSwap", "namedInts", "T", <<M("T", "R")>>, 0)}
+  \* (a) attacker-declared named types (value and pointer receivers; through sort.Sort)
+  \cup {CV("cvOwnSet", "sliceInt", "own", <<M("own", "R")>>, 0), CV("cvOwnSetP", "sliceInt", "own", <<M("own", None)>>, 0),
+        CV("cvOwnIdx", "sliceInt", "own", <<>>, 0), CV("cvOwnSort", "sliceInt", "own", <<F("T"), M("own", "R")>>, 0),
+        CV("cvOwnMapPut", "mapSI", "own", <<M("own", "R")>>, 0), CV("cvOwnMapIdx", "mapSI", "own", <<>>, 0),
+        CV("cvOwnArrSet", "ptrArr", "own", <<M("own", "R")>>, 0), CV("cvOwnTwinSet", "ptrBox", "own", <<M("own", "R")>>, 0)}
+  \* (c) unnamed <-> named
+  \cup {CV("cvUnnamedIdx", "namedInts", "U", <<>>, 0), CV("cvUnnamedSort", "namedInts", "U", <<F("T"), M("T", "R")>>, 0)}
 
-NoCur == {"bumper", "bump", "setter"}
+NoCur == {"bumper", "bump", "setter", "swapown"}
 CX(nm, calls, paths, ponly, inl, hascur) == [name |-> nm, calls |-> calls, paths |-> paths, ponly |-> ponly, inl |-> inl, hascur |-> hascur]
 BoxOnly == PtrBox
 MCCtxs == {
